@@ -308,6 +308,12 @@ fn list_hist(ops: usize, first: usize, ch: &mut dyn Pick) -> Vec<String> {
                     if g.edge_endpoints(e) != Some((a as u32, b as u32)) {
                         bad.push(format!("step {}: find_edge({},{}) has endpoints {:?}", i, a, b, g.edge_endpoints(e)));
                     }
+                    // among parallel edges the first inserted one is found (the one update_edge overwrites)
+                    let first = rows[a].iter().find(|x| x.0 == b).map(|x| x.1);
+                    let got = (&g).edge_references().find(|r| r.id() == e).map(|r| *r.weight());
+                    if got != first {
+                        bad.push(format!("step {}: find_edge({},{}) finds the edge with weight {:?}, the first inserted one has {:?}", i, a, b, got, first));
+                    }
                 }
             }
             let ws: Vec<i32> = g.edge_indices_from(a as u32).map(|e| *(&g).edge_references().find(|r| r.id() == e).unwrap().weight()).collect();
